@@ -27,7 +27,7 @@ pub fn silhouette_in_domain(points: &[Vec<f64>], labels: &[usize]) -> bool {
     })
 }
 
-fn ref_silhouette(points: &[Vec<f64>], labels: &[usize]) -> f64 {
+pub fn ref_silhouette(points: &[Vec<f64>], labels: &[usize]) -> f64 {
     let n = points.len();
     let mut ls: Vec<usize> = labels.to_vec();
     ls.sort();
